@@ -21,6 +21,8 @@ THEOREMS = {
         'RsomeV.C02.rc_complete_late_lp',
         'RsomeV.C02.rc_exact_late_lp',
     ],
+    'RsomeV.Props.C02Conic': ['RsomeV.C02Conic.hgap_soc_slater', 'RsomeV.C02Conic.rc_exact_soc_slater', 'RsomeV.C02Conic.rc_exact_late_soc_slater',
+                              'RsomeV.C02Conic.coneDual_strong', 'RsomeV.C02Conic.compact_layout_needs_free_tails'],
     'RsomeV.Props.C01': ['RsomeV.C01.rc_sound'],
     'RsomeV.Props.C08': ['RsomeV.C08.lp_dual_strong'],
 }
